@@ -13,6 +13,14 @@ Tie     : extracted facts (INVALID_MODULE_CHARS ranges, validation before __impo
           MultiCall; jsonrpc.load/loads/dump/dumps) built with a non-default configuration, flag on and off (`_entry_points`);
           extracted facts `configSinks` (each constructor keeps the configuration it is given, directly or through the base
           constructor it forwards it to) and `configPassing`.
+Text    : every request / reply the generators build is also sent in the other SPELLINGS RFC 8259 allows for the same payload
+          (harness/jsonspell.py: member names and strings with \\uXXXX escapes — all, some, exactly one character of
+          "__jsonclass__" —, surrogate pairs, escaped solidus and short escapes, raw non-ASCII, white space, repeated member names
+          of which the last wins, and mixtures) through jsonrpclib.loads, the dispatcher, the HTTP / Unix-socket servers and the
+          reply path of the clients; the payload a text denotes is `json.loads(text)`, checked against the intended value
+          (component `jsonspell`); histogram keys `text/<side>/<style>/<is the member name visible in the raw text>`.
+          Extracted fact `loadsReturns` (every way out of jsonrpc.loads: `None` for the empty text, `load(jloads(data), config)`
+          otherwise, the raw text being read by nothing else).
 Monitor : from the property statement.  Observation of one decoding (`observe`): a process-wide audit hook
           collecting `import` events raised while jsonclass.load is on the stack, a wrapper of builtins.__import__
           recording the *dynamic* imports made by jsonrpclib.jsonclass (`__import__(name, …)` calls — a static
@@ -41,6 +49,7 @@ import gen
 import impl
 import jcentries
 import jcenv
+import jsonspell
 import pyval
 
 import jsonrpclib.jsonclass as JC
@@ -54,6 +63,8 @@ REQUIRED_THEOREMS = [
     "C08_server_rejects_bad_descriptor", "C08_gen_moduleCharClass", "C08_gen_allowed", "C08_gen_validationPrecedesImport",
     "C08_gen_useJsonclassGates", "C08_gen_loadsCallsLoad", "C08_gen_loadsGuarded", "C08_gen_configCallSites",
     "C08_gen_configSinks", "C08_gen_configPassing",
+    "C08_loads_spelling_independent", "C08_loads_rejects_whatever_the_spelling", "C08_text_spelling_denotes",
+    "C08_text_jsonclass_key_spellings", "C08_text_escaped_key_not_in_text", "C08_gen_loadsReturns",
 ]
 
 ALPHABET = ["a", "Z", "0", "_", ".", "-", " ", "\n", "é", "ａ"]
@@ -256,6 +267,93 @@ def strict_equal(a, b):
         return False
     except UnicodeEncodeError:  # a lone surrogate somewhere: compare structurally
         return json.dumps(a, sort_keys=True) == json.dumps(b, sort_keys=True) and repr(a) == repr(b)
+
+
+# ---- the text a payload travels as --------------------------------------------------------------------------------------
+
+_SPELL = {"rng": None}
+SPELL_STYLES = [st for st in jsonspell.STYLES if st != "plain"]
+
+
+def pick_style(rng, p_plain=0.45):
+    return "plain" if rng.random() < p_plain else rng.choice(SPELL_STYLES)
+
+
+def spelled(ctx, side, style, payload, envelope_of=None, seed=None):
+    """The document `envelope_of(payload)` as a text in the given style.  -> (text, the payload the text denotes)
+    The payload is what the JSON decoder makes of its part of the text (for the styles that repeat member names: the last
+    occurrence); for every other style it must be the intended one (a difference is reported as a disagreement, component
+    `jsonspell`: the speller is the harness' reading of RFC 8259)."""
+    import random
+    rng = random.Random(seed) if seed is not None else (_SPELL["rng"] or random.Random(0))
+    envelope_of = envelope_of or (lambda x: x)
+    try:
+        intended = json.loads(json.dumps(payload))
+    except (TypeError, ValueError):
+        intended = payload
+    text, ptext, changed = jsonspell.spell_in_envelope(rng, style, intended, envelope_of)
+    denoted = json.loads(ptext)
+    if not changed and not jsonspell.same_payload(denoted, intended) and ctx is not None:
+        ctx.disagree({"style": style, "text": ptext[:400]}, "json.loads of the text: %r" % (denoted,), "intended payload: %r" % (intended,),
+                     component="jsonspell")
+    if ctx is not None:
+        ctx.hist["text/%s/%s/%s" % (side, style, jsonspell.text_class(ptext, denoted))] += 1
+    return text, denoted
+
+
+MALFORMED_BODIES = ["\n", "a\tb", "\x00", "\x1f", '"', 'a"b', "\\", "\\x41", "\\a", "\\'", "\\u", "\\u0", "\\u00e", "\\u00g0", "\\uD83D",
+                    "\\ud83d\\u0041", "\\ude00", "\\ude00\\ud83d", "\\ud83dx", "\\U0041", "\\u+041", "\\u 041", "\\u0x41", "\\u00_1", "x\\",
+                    "\\ud83d\\ud83d\\ude00", "\x7f", "\\u005F_\\u005f", "\\/\\b\\f\\n\\r\\t\\\\\\\"", "\\ud800\\udc00", "\\udbff\\udfff", "\\uffff",
+                    "\\ud7ff\\ue000", "\\uDBFF\\uDC00"]
+
+
+def _string_literals(ctx):
+    """Bodies of string literals (the text between the quotation marks): every spelling the speller writes for the member name,
+    for class names of the generators and for random Unicode strings — plus bodies no decoder may accept and unpaired surrogate
+    escapes.  Compared with what the JSON backend of the package makes of `"<body>"` (component `jsonstring`)."""
+    rng = ctx.derive_rng("string-literals")
+    out = list(MALFORMED_BODIES)
+    strings = ["__jsonclass__", "__jsonclass__", CANARY + ".Boom", "os.path/x", "a\"b\\c", "\t\n\r\b\f/", "é\u00e9ａ", "\U0001f600\U00010000\U0010ffff",
+               "", "\x7f\x80\uffff"]
+    strings += [random_unicode(rng) for _ in range(ctx.budget(60, 600))]
+    for st in strings:
+        if any(0xD800 <= ord(ch) <= 0xDFFF for ch in st):
+            st = "".join(ch for ch in st if not 0xD800 <= ord(ch) <= 0xDFFF)
+        for mode in ("none", "all", "partial", "short", "one"):
+            sp = jsonspell.Speller(rng, rng.choice(["mixed", "raw-unicode", "escape-all"]))
+            lit = sp.string(st, mode, 0.4, one_at=rng.randrange(len(st)) if st else None)
+            out.append(lit[1:-1])
+    # near misses: a correct body with one character damaged
+    for _ in range(ctx.budget(40, 400)):
+        b = rng.choice(out[len(MALFORMED_BODIES):])
+        if not b:
+            continue
+        i = rng.randrange(len(b))
+        out.append(b[:i] + rng.choice(["\\", '"', "\n", "\\u", "\\ud800", "g", ""]) + b[i + 1:])
+    return out
+
+
+def _check_string_literals(ctx, literals, outs):
+    declined = 0
+    for body, mo in zip(literals, outs):
+        k, v = impl.outcome(impl.jsonrpclib.jsonrpc.jloads, '"' + body + '"')
+        if k == "ok" and not isinstance(v, str):
+            k = "err"  # `"a" "b"`-like accidents of a damaged body: not one string literal
+        if k == "ok" and any(0xD800 <= ord(ch) <= 0xDFFF for ch in v):
+            # an unpaired surrogate escape: Python keeps a lone surrogate, the model (Lean's Char) declines
+            if mo != "none":
+                ctx.disagree({"body": body}, "jloads: a string with a lone surrogate", mo, component="jsonstring")
+            declined += 1
+            ctx.hist["text/string-literal/lone-surrogate"] += 1
+            continue
+        want = "none" if k == "err" else "ok " + pyval.enc(v)
+        if mo != want or (k == "ok" and '"' in body.replace('\\"', "").replace("\\\\", "")):
+            if mo != want:
+                ctx.disagree({"body": body[:300]}, want[:300], mo[:300], component="jsonstring")
+        ctx.hist["text/string-literal/%s" % ("accepted" if k == "ok" else "rejected")] += 1
+        ctx.count(nontrivial_key=("literal", k, body[:12]) if "\\" in body else None, kind="string-literal/" + k)
+    ctx.traces_validated += len(literals)
+    ctx.extra["string_literals_declined_lone_surrogate"] = declined
 
 
 # ---- generators ---------------------------------------------------------------------------------------------------
@@ -491,6 +589,7 @@ def run(ctx):
                 "class names of length <= 3 over the alphabet a Z 0 _ . - space newline e-acute fullwidth-a (exhaustive in the "
                 "thorough tier); distinct_nontrivial = distinct (descriptor kind, nesting path, side, flag, outcome)")
     canary_setup()
+    _SPELL["rng"] = ctx.derive_rng("text-spellings")
     pending = []  # (model line, expectation, case)
     try:
         _names_stream(ctx, pending)
@@ -510,7 +609,10 @@ def run(ctx):
         _outside_domain(ctx)
     finally:
         canary_teardown()
-    outs = ctx.lean([p[0] for p in pending])
+    literals = _string_literals(ctx)
+    outs = ctx.lean([p[0] for p in pending] + ["jsonstring S" + b.encode("utf-8").hex() for b in literals])
+    _check_string_literals(ctx, literals, outs[len(pending):])
+    outs = outs[:len(pending)]
     unmodelled = 0
     for (ln, exp, case), mo in zip(pending, outs):
         if "err Unmodelled" in mo:
@@ -619,6 +721,20 @@ def _run_env(ctx, env, per_env, pending):
             _side_server(ctx, env, pg, payload, kind, path, flag, pending, pg.monitor_only)
     _deep_nesting(ctx, env)
     _direct_shapes(ctx, env, pg, pending)
+    _minimal_texts(ctx, env, pending)
+
+
+def _minimal_texts(ctx, env, pending):
+    """The SHORTEST texts that carry a descriptor: a payload that is nothing but one malformed / invalidly named descriptor, in
+    the compact spelling (no white space), in the spelling json.dumps writes and with one escaped character in the member
+    name — decoded directly with the flag on (a decision taken on the length or on the first characters of the text shows
+    here)."""
+    payloads = [({"__jsonclass__": m}, "malformed") for m in MALFORMED[:11]] + \
+               [({"__jsonclass__": [n, a]}, "invalid-short") for n in ("", " ", "a b", "é") for a in ([], {})] + \
+               [([{"__jsonclass__": ["", []]}], "invalid-empty"), ({"a": {"__jsonclass__": 0}}, "malformed")]
+    for payload, kind in payloads:
+        for style in ("compact", "plain", "escape-jsonclass-key-one"):
+            _side_loads(ctx, env, copy.deepcopy(payload), kind, "minimal-text", True, pending, False, style)
 
 
 def _single_bad(payload):
@@ -639,11 +755,12 @@ def _check_single_bad(ctx, case, o, payload, where):
                     % (where, d["__jsonclass__"][0], type(o.value).__name__), key="invalid-name-wrong-error")
 
 
-def _side_loads(ctx, env, payload, kind, path, flag, pending, mo=False):
+def _side_loads(ctx, env, payload, kind, path, flag, pending, mo=False, style=None):
     cfg = make_cfg(env, flag)
-    text = json.dumps(payload)
+    style = style or pick_style(ctx.rng)
+    text, payload = spelled(ctx, "loads", style, payload)
     o = observe(impl.jsonrpclib.loads, text, cfg, _payload=payload)
-    case = {"side": "loads", "text": text, "flag": flag, "kind": kind, "path": path}
+    case = {"side": "loads", "text": text, "flag": flag, "kind": kind, "path": path, "style": style}
     check_imports(ctx, case, o, payload, flag, "loads")
     if not flag:
         if not (o.kind == "ok" and strict_equal(o.value, json.loads(text))):
@@ -681,13 +798,25 @@ def _side_client(ctx, env, payload, kind, path, flag, pending, mo=False):
             rep["error"] = None
         elif "result" not in rep:
             rep["result"] = None
-        handler.reply = json.dumps(rep)
+
+        def envelope(x):
+            doc = copy.copy(rep)
+            if as_error:
+                doc["error"] = dict(rep["error"], data=x)
+            else:
+                doc["result"] = x
+            return doc
+
+        handler.reply, handler.payload = spelled(ctx, "client", style, payload, envelope)
         return handler.reply
 
+    style = pick_style(ctx.rng)
     proxy = impl.jsonrpclib.jsonrpc.ServerProxy("http://localhost/", transport=impl.LoopTransport(handler), config=cfg, version=version)
     o = observe(proxy.ping, 1, _payload=payload)
     reply = json.loads(getattr(handler, "reply", "null"))
-    case = {"side": "client", "reply": getattr(handler, "reply", None), "flag": flag, "kind": kind, "path": path, "version": version}
+    payload = getattr(handler, "payload", payload)  # the payload the reply text denotes
+    case = {"side": "client", "reply": getattr(handler, "reply", None), "flag": flag, "kind": kind, "path": path, "version": version,
+            "style": style}
     check_imports(ctx, case, o, payload, flag, "client")
     if not flag:
         if as_error:
@@ -726,26 +855,32 @@ def _side_server(ctx, env, pg, payload, kind, path, flag, pending, mo=False):
 
     disp.register_function(echo, "echo")
     where = rng.choice(["params-list", "params-list", "params-dict", "id", "whole", "batch", "method", "extra-member"])
-    req = {"jsonrpc": "2.0", "method": "echo", "id": 7}
-    if where == "params-list":
-        req["params"] = [payload, 1]
-    elif where == "params-dict":
-        req["params"] = {"p": payload}
-    elif where == "id":
-        req["id"] = payload
-        req["params"] = [1]
-    elif where == "method":
-        req["method"] = payload
-    elif where == "extra-member":
-        req["params"] = [1]
-        req["extra"] = payload
-    elif where == "whole":
-        req = payload
-    else:
-        req = [{"jsonrpc": "2.0", "method": "echo", "id": 1, "params": [1]}, {"jsonrpc": "2.0", "method": "echo", "id": 2, "params": [payload]}]
-    body = json.dumps(req)
+
+    def envelope(x):
+        req = {"jsonrpc": "2.0", "method": "echo", "id": 7}
+        if where == "params-list":
+            req["params"] = [x, 1]
+        elif where == "params-dict":
+            req["params"] = {"p": x}
+        elif where == "id":
+            req["id"] = x
+            req["params"] = [1]
+        elif where == "method":
+            req["method"] = x
+        elif where == "extra-member":
+            req["params"] = [1]
+            req["extra"] = x
+        elif where == "whole":
+            req = x
+        else:
+            req = [{"jsonrpc": "2.0", "method": "echo", "id": 1, "params": [1]}, {"jsonrpc": "2.0", "method": "echo", "id": 2, "params": [x]}]
+        return req
+
+    style = pick_style(rng)
+    body, payload = spelled(ctx, "server", style, payload, envelope)
+    req = json.loads(body)
     o = observe(disp._marshaled_dispatch, body, _payload=req)
-    case = {"side": "server", "body": body, "flag": flag, "kind": kind, "path": where + "/" + path}
+    case = {"side": "server", "body": body, "flag": flag, "kind": kind, "path": where + "/" + path, "style": style}
     check_imports(ctx, case, o, req, flag, "server")
     reply = None
     if o.kind == "ok" and o.value:
@@ -1093,9 +1228,10 @@ def _entry_payloads(rng):
     return out
 
 
-def entry_server_exchange(kind, flag, variant, form, payload):
-    """One request through the public path of a server-side entry point built with a non-default configuration.
-    -> (observation, reply document | None, what the registered methods received)"""
+def entry_server_exchange(kind, flag, variant, form, payload, style="plain", seed=0, ctx=None):
+    """One request through the public path of a server-side entry point built with a non-default configuration; the body is
+    spelt in `style` (harness/jsonspell.py; `seed` makes the spelling reproducible).
+    -> (observation, the request as the body denotes it, reply document | None, what the registered methods received, payload)"""
     cfg = _entry_cfg(flag, variant)
     received = []
 
@@ -1108,12 +1244,17 @@ def entry_server_exchange(kind, flag, variant, form, payload):
         return _gate_values()["bean"]
 
     meth = "bean" if form.startswith("bean") else "echo"
-    req = {"method": meth, "id": 7, "params": [] if meth == "bean" else [payload]}
-    if not form.endswith("1.0-form"):
-        req["jsonrpc"] = "2.0"
-    if form == "echo-batch":
-        req = [{"jsonrpc": "2.0", "method": "echo", "id": 1, "params": [1]}, req]
-    body = json.dumps(req)
+
+    def envelope(x):
+        req = {"method": meth, "id": 7, "params": [] if meth == "bean" else [x]}
+        if not form.endswith("1.0-form"):
+            req["jsonrpc"] = "2.0"
+        if form == "echo-batch":
+            req = [{"jsonrpc": "2.0", "method": "echo", "id": 1, "params": [1]}, req]
+        return req
+
+    body, payload = spelled(ctx, "entry:" + kind, style, payload, envelope, seed=seed)
+    req = json.loads(body)
     entry = jcentries.ServerEntry(kind, cfg, {"echo": echo, "bean": bean})
     try:
         o = observe(entry.send, body, _payload=req)
@@ -1125,7 +1266,7 @@ def entry_server_exchange(kind, flag, variant, form, payload):
             reply = json.loads(o.value)
         except ValueError:
             reply = None
-    return o, req, reply, received
+    return o, req, reply, received, payload
 
 
 def entry_server_verdicts(kind, flag, form, payload, o, req, reply, received):
@@ -1165,13 +1306,19 @@ def entry_server_verdicts(kind, flag, form, payload, o, req, reply, received):
     return hits
 
 
-def entry_client_exchange(kind, flag, variant, mode, rkind):
+ENTRY_REPLY_INVALID = {"__jsonclass__": ["bad name!", []], "k": 1}
+
+
+def entry_client_exchange(kind, flag, variant, mode, rkind, style="plain", seed=0, ctx=None):
     """One call through a client-side entry point built with a non-default configuration; the peer answers the JSON
-    value `rkind` of _gate_values() verbatim.  -> (observation, bodies sent, results, reply texts)"""
+    value `rkind` of _gate_values() (or, `invalid`, a descriptor with an invalid class name), the reply text spelt in `style`.
+    -> (observation, bodies sent, results, reply texts)"""
+    import random
     J = impl.jsonrpclib.jsonrpc
     cfg = _entry_cfg(flag, variant)
-    vals = _gate_values()
+    vals = dict(_gate_values(), invalid=ENTRY_REPLY_INVALID)
     replies = []
+    srng = random.Random(seed)
 
     def peer(body):
         docs = json.loads(body)
@@ -1179,13 +1326,20 @@ def entry_client_exchange(kind, flag, variant, mode, rkind):
         for doc in (docs if isinstance(docs, list) else [docs]):
             if doc.get("id") is None:
                 continue
-            rep = {"id": doc["id"], "result": vals[rkind]}
+            rep = {"id": doc["id"], "result": None}
             if "jsonrpc" in doc:
                 rep["jsonrpc"] = "2.0"
             else:
                 rep["error"] = None
             out.append(rep)
-        text = "" if not out else json.dumps(out if isinstance(docs, list) else out[0])
+        if not out:
+            text = ""
+        else:
+            def envelope(x):
+                reps = [dict(r, result=x) for r in out]
+                return reps if isinstance(docs, list) else reps[0]
+
+            text, _denoted = spelled(ctx, "entry:" + kind, style, vals[rkind], envelope, seed=srng.randrange(1 << 30))
         replies.append(text)
         return text
 
@@ -1213,8 +1367,14 @@ def entry_client_exchange(kind, flag, variant, mode, rkind):
 
 def entry_client_verdicts(kind, flag, mode, rkind, o, sent, results, replies):
     hits = []
-    vals = _gate_values()
+    vals = dict(_gate_values(), invalid=ENTRY_REPLY_INVALID)
     where = "entry:" + kind
+    # the results the (last) reply text denotes — what a repeated member name leaves is the decoder's business
+    want = []
+    if replies and replies[-1]:
+        docs = json.loads(replies[-1])
+        want = [d.get("result") for d in (docs if isinstance(docs, list) else [docs])]
+    as_intended = all(jsonspell.same_payload(w, json.loads(json.dumps(vals[rkind]))) for w in want)
     if not flag:
         if o.kind == "err":
             hits.append(("off-client-raises:" + kind, "%s built with use_jsonclass=False: the %s call raised %s: %s"
@@ -1222,10 +1382,13 @@ def entry_client_verdicts(kind, flag, mode, rkind, o, sent, results, replies):
         if o.canary or o.calls or o.events:
             hits.append(("off-client-imports:" + kind, "%s built with use_jsonclass=False: imports %r / %r, canary %r"
                          % (where, o.calls, o.events, o.canary)))
-        for r in results:
-            if not strict_equal(r, vals[rkind]):
+        for r, w in zip(results, want):
+            if not strict_equal(r, w):
                 hits.append(("off-not-plain-json:" + kind, "%s built with use_jsonclass=False: the %s call returned %r instead of the "
-                             "JSON result %r" % (where, mode, r, vals[rkind])))
+                             "JSON result %r" % (where, mode, r, w)))
+        if len(results) != len(want) and o.kind == "ok":
+            hits.append(("off-not-plain-json:" + kind, "%s built with use_jsonclass=False: the %s call returned %d results for the %d "
+                         "of the reply" % (where, mode, len(results), len(want))))
         for body in sent:
             docs = json.loads(body)
             for doc in (docs if isinstance(docs, list) else [docs]):
@@ -1233,12 +1396,32 @@ def entry_client_verdicts(kind, flag, mode, rkind, o, sent, results, replies):
                 got = p.get("x") if isinstance(p, dict) else (p[0] if p else None)
                 if not any(strict_equal(got, vals[k]) for k in ("jcdict", "canary")):
                     hits.append(("off-client-param-not-verbatim:" + kind, "%s sent %r" % (where, got)))
+    elif not as_intended:
+        pass  # a repeated member name replaced the descriptor: nothing to require of this reply
     elif rkind == "canary" and mode != "notify":
         # the flag is on: the valid descriptor of the reply is acted upon (the canary class is constructed)
         if "constructed" not in o.canary:
             hits.append(("on-client-not-translated:" + kind, "%s built with use_jsonclass=True: the %s call gave %s %r and the "
                          "canary saw %r" % (where, mode, o.kind, o.value, o.canary)))
+    elif rkind == "invalid" and mode != "notify":
+        # the flag is on: a reply whose descriptor has an invalid class name is rejected with TranslationError
+        if not (o.kind == "err" and type(o.value).__name__ == "TranslationError"):
+            hits.append(("bad-descriptor-accepted:" + kind, "%s built with use_jsonclass=True: the reply %s carries a descriptor with "
+                         "the invalid class name %r, yet the %s call gave %s %r"
+                         % (where, (replies or ["?"])[-1][:300], ENTRY_REPLY_INVALID["__jsonclass__"][0], mode, o.kind, o.value)))
     return hits
+
+
+def _entry_server_case(ctx, kind, flag, variant, form, pname, payload, style, seed):
+    o, req, reply, received, denoted = entry_server_exchange(kind, flag, variant, form, payload, style, seed, ctx)
+    case = {"side": "entry-server", "entry": kind, "flag": flag, "variant": variant, "form": form,
+            "payload": payload, "kind": pname, "path": form, "style": style, "spell_seed": seed}
+    check_imports(ctx, case, o, req, flag, "entry:" + kind, new_modules=kind in jcentries.IN_PROCESS)
+    for key, detail in entry_server_verdicts(kind, flag, form, denoted, o, req, reply, received)[:2]:
+        ctx.violate(case, detail, key=key)
+    outc = "ok" if o.kind == "ok" else type(o.value).__name__
+    ctx.count(nontrivial_key=("entry", kind, flag, form, pname, outc, style != "plain"),
+              kind="entry/%s/%s/%s" % (kind, "on" if flag else "off", form))
 
 
 def _entry_points(ctx, only=None):
@@ -1260,30 +1443,32 @@ def _entry_points(ctx, only=None):
                     n += 1
                     if form.endswith("1.0-form") and variant == 2:
                         variant = 1  # a 1.0-form request on a 2.0 server: answered through a copy of the configuration
-                    o, req, reply, received = entry_server_exchange(kind, flag, variant, form, payload)
-                    case = {"side": "entry-server", "entry": kind, "flag": flag, "variant": variant, "form": form,
-                            "payload": payload, "kind": pname, "path": form}
-                    check_imports(ctx, case, o, req, flag, "entry:" + kind, new_modules=kind in jcentries.IN_PROCESS)
-                    for key, detail in entry_server_verdicts(kind, flag, form, payload, o, req, reply, received)[:2]:
-                        ctx.violate(case, detail, key=key)
-                    outc = "ok" if o.kind == "ok" else type(o.value).__name__
-                    ctx.count(nontrivial_key=("entry", kind, flag, form, pname, outc),
-                              kind="entry/%s/%s/%s" % (kind, "on" if flag else "off", form))
+                    # the same request in the spelling json.dumps writes and in another one RFC 8259 allows
+                    styles = ["plain"]
+                    if form.startswith("echo") and (pname in ("invalid-name", "valid-canary", "malformed") or ctx.thorough):
+                        styles.append(rng.choice(SPELL_STYLES))
+                    for style in styles:
+                        _entry_server_case(ctx, kind, flag, variant, form, pname, payload, style, rng.randrange(1 << 30))
     for kind in jcentries.CLIENT_ENTRIES:
         for flag in (False, True):
             n = 0
             for mode in ("call", "keyword", "notify", "multicall"):
-                for rkind in ("jcdict", "canary"):
+                for rkind in ("jcdict", "canary", "invalid"):
                     variant = n % 3
                     n += 1
-                    o, sent, results, replies = entry_client_exchange(kind, flag, variant, mode, rkind)
-                    case = {"side": "entry-client", "entry": kind, "flag": flag, "variant": variant, "mode": mode, "rkind": rkind,
-                            "kind": "entry-client", "path": mode}
-                    for key, detail in entry_client_verdicts(kind, flag, mode, rkind, o, sent, results, replies)[:2]:
-                        ctx.violate(case, detail, key=key)
-                    outc = "ok" if o.kind == "ok" else type(o.value).__name__
-                    ctx.count(nontrivial_key=("entry", kind, flag, mode, rkind, outc),
-                              kind="entry/%s/%s/%s" % (kind, "on" if flag else "off", mode))
+                    # the reply in the spelling json.dumps writes and in another one RFC 8259 allows
+                    for style in ("plain", rng.choice(SPELL_STYLES)):
+                        if rkind == "invalid" and mode == "notify":
+                            continue
+                        seed = rng.randrange(1 << 30)
+                        o, sent, results, replies = entry_client_exchange(kind, flag, variant, mode, rkind, style, seed, ctx)
+                        case = {"side": "entry-client", "entry": kind, "flag": flag, "variant": variant, "mode": mode, "rkind": rkind,
+                                "kind": "entry-client", "path": mode, "style": style, "spell_seed": seed}
+                        for key, detail in entry_client_verdicts(kind, flag, mode, rkind, o, sent, results, replies)[:2]:
+                            ctx.violate(case, detail, key=key)
+                        outc = "ok" if o.kind == "ok" else type(o.value).__name__
+                        ctx.count(nontrivial_key=("entry", kind, flag, mode, rkind, outc, style != "plain"),
+                                  kind="entry/%s/%s/%s" % (kind, "on" if flag else "off", mode))
     _entry_functions_only(ctx)
 
 
@@ -1347,6 +1532,8 @@ def replay(payload):
             o = observe(JC.load, case["payload"], None, _payload=case["payload"])
             doc = case["payload"]
         elif side == "loads":
+            if case.get("style"):
+                print("the text, spelt in the style %r: %s" % (case["style"], case["text"][:600]))
             doc = json.loads(case["text"])
             o = observe(impl.jsonrpclib.loads, case["text"], cfg, _payload=doc)
         elif side == "client":
@@ -1358,6 +1545,8 @@ def replay(payload):
             disp = SimpleJSONRPCDispatcher(config=cfg)
             invoked = []
             disp.register_function(lambda *a, **k: invoked.append((a, k)) or list(a), "echo")
+            if case.get("style"):
+                print("the body, spelt in the style %r: %s" % (case["style"], case["body"][:600]))
             doc = json.loads(case["body"])
             o = observe(disp._marshaled_dispatch, case["body"], _payload=doc)
             print("invoked:", invoked)
@@ -1375,9 +1564,13 @@ def replay(payload):
             return 1 if hits else 0
         elif side == "entry-server":
             print("detail recorded by the check:", payload.get("detail"))
-            o, req, reply, received = entry_server_exchange(case["entry"], flag, case["variant"], case["form"], case["payload"])
-            print("entry point %s built with Config(use_jsonclass=%s, variant %d), %s request\nbody: %s\nreply: %s\nmethods received: %r"
-                  % (case["entry"], flag, case["variant"], case["form"], json.dumps(req), str(o.value)[:500], received))
+            o, req, reply, received, denoted = entry_server_exchange(case["entry"], flag, case["variant"], case["form"], case["payload"],
+                                                                     case.get("style", "plain"), case.get("spell_seed", 0))
+            case = dict(case, payload=denoted)
+            print("entry point %s built with Config(use_jsonclass=%s, variant %d), %s request, body spelt in the style %r\n"
+                  "the body denotes: %s\nreply: %s\nmethods received: %r"
+                  % (case["entry"], flag, case["variant"], case["form"], case.get("style", "plain"), json.dumps(req),
+                     str(o.value)[:500], received))
             print("imports by the translator:", o.calls, "canary:", o.canary or "untouched")
             hits = entry_server_verdicts(case["entry"], flag, case["form"], case["payload"], o, req, reply, received)
             allowed = allowed_imports(req) if flag else set()
@@ -1390,7 +1583,8 @@ def replay(payload):
             return 1 if hits else 0
         elif side == "entry-client":
             print("detail recorded by the check:", payload.get("detail"))
-            o, sent, results, replies = entry_client_exchange(case["entry"], flag, case["variant"], case["mode"], case["rkind"])
+            o, sent, results, replies = entry_client_exchange(case["entry"], flag, case["variant"], case["mode"], case["rkind"],
+                                                              case.get("style", "plain"), case.get("spell_seed", 0))
             print("sent:", sent, "\nreplies:", replies, "\nresults:", results, "\noutcome:", o.kind, repr(o.value)[:200],
                   "canary:", o.canary or "untouched")
             hits = entry_client_verdicts(case["entry"], flag, case["mode"], case["rkind"], o, sent, results, replies)
@@ -1471,6 +1665,22 @@ def replay(payload):
             hit = True
         if side == "server" and d is not None and "-32700" not in str(o.value):
             hit = True
+        if side == "client" and d is not None:
+            if case.get("style"):
+                print("the reply, spelt in the style %r: %s" % (case["style"], case["reply"][:600]))
+            # the reply's only descriptor is invalid / malformed: the call must fail in the translator, not go on to the reply
+            tname = type(o.value).__name__
+            if not (o.kind == "err" and tname not in ("AppError", "ProtocolError")) or (shape(d) == "invalid-name" and tname != "TranslationError"):
+                hit = True
+        if side == "server" and flag and not case.get("deep"):
+            # whatever the translator rejects (in this process: the generated classes of the run are not defined here) must be
+            # answered with -32700 and no registered method may run
+            k2, r2 = impl.outcome(JC.load, json.loads(case["body"]), cfg.classes)
+            sys.modules.pop(CANARY, None)
+            if k2 == "err":
+                print("the translator rejects the decoded body: %s: %s" % (type(r2).__name__, r2))
+                if "-32700" not in str(o.value) or invoked:
+                    hit = True
         print("detail recorded by the check:", payload.get("detail"))
         if hit:
             print("VIOLATION reproduced")
